@@ -134,7 +134,7 @@ def run_shards(rundir, meta, log):
         rc, out, dt = sh(["coqc", "-Q", COQ, "ELA", os.path.basename(f)], cwd=rundir, timeout=meta.get("shard_timeout", 600))
         return f, rc, out, dt
 
-    with ThreadPoolExecutor(max_workers=int(os.environ.get("VERIF_JOBS", "12"))) as ex:
+    with ThreadPoolExecutor(max_workers=int(os.environ.get("VERIF_JOBS", "8"))) as ex:
         for f, rc, out, dt in ex.map(one, shards):
             log.write("== shard %s rc=%d %.1fs\n%s\n" % (os.path.basename(f), rc, dt, out[-2000:]))
             if rc == 124:
